@@ -302,3 +302,24 @@ Print Assumptions c02_eof_wakes_every_step.
 Print Assumptions c02_eof_wakes_every_trace.
 Print Assumptions c02_zero_window_waker_or_d9_every_step.
 Print Assumptions c02_zero_window_waker_or_d9_every_trace.
+
+(* the guards of the theorems above are met by reachable states *)
+Theorem c02_zero_window_guard_nonvacuous :
+  exists w cfg ops,
+    vconfig_ok cfg = true /\ Forall op_msg_ok ops /\
+    existsb (fun st => zero_window_guard st && negb (c02_d9_class cfg st)) (wtrace w cfg ops) = true /\
+    forallb (c02_zero_window_waker cfg) (wtrace w cfg ops) = true.
+Proof. exact zero_window_guard_nonvacuous. Qed.
+
+Theorem c02_rto_armed_nofin_nonvacuous :
+  exists w cfg ops,
+    vconfig_ok cfg = true /\ Forall op_msg_ok ops /\
+    existsb (fun st => data_outstanding (fs_post st) && negb (fin_outstanding (fs_post st)) &&
+                       negb (f_transport_pending (fs_post st)) &&
+                       match fs_result st with FrPoll PollPending _ _ _ => true | _ => false end)
+            (wtrace w cfg ops) = true /\
+    forallb (c02_rto_armed cfg) (wtrace w cfg ops) = true.
+Proof. exact rto_armed_nofin_nonvacuous. Qed.
+
+Print Assumptions c02_zero_window_guard_nonvacuous.
+Print Assumptions c02_rto_armed_nofin_nonvacuous.
